@@ -113,15 +113,35 @@ func (h *H) Step(line string) {
 		}
 		h.result(class, strconv.Itoa(int(id.Index())))
 	case "rebuild":
-		// a NEW world with the same component types registered in the same order; dumps survive
-		if len(toks) != 3 {
+		// a NEW world with the same component types registered in the same order; dumps survive.
+		// `rebuild c r rot`: the types are registered in ROTATED order (the first one last), so every
+		// component gets another ID, and the observer objects survive, un-registered: an observer object
+		// may be registered in another world, where its components have other IDs (defect D22)
+		if len(toks) != 3 && !(len(toks) == 4 && toks[3] == "rot") {
 			h.emit("bad-op")
 			return
 		}
 		c, _ := strconv.Atoi(toks[1])
 		r, _ := strconv.Atoi(toks[2])
 		log, dumps, maxc, snap, ln := h.regLog, h.dumps, h.maxComp, h.snap, h.lineNo
+		var keepObs map[int]*obsObj
+		if len(toks) == 4 {
+			keepObs = h.obs
+			for _, oo := range keepObs {
+				oo := oo
+				func() {
+					defer func() { _ = recover() }()
+					oo.o.Unregister(h.w)
+				}()
+			}
+			if len(log) > 1 {
+				log = append(append([]int(nil), log[1:]...), log[0])
+			}
+		}
 		h.resetWorld(c, r, maxc, snap)
+		if keepObs != nil {
+			h.obs = keepObs
+		}
 		h.lineNo, h.dumps = ln, dumps
 		class := try(func() {
 			for _, n := range log {
@@ -895,6 +915,7 @@ func (h *H) doObs(toks []string) {
 			for _, p := range oo.script {
 				h.runProbe(l, e, p)
 			}
+			h.provoke(e)
 		})
 	}
 	h.obs[l] = oo
